@@ -188,7 +188,7 @@ func oneHandover(r *vf.Run, a *app.App, me *refctl.Identity, acc app.StoredEntit
 		return
 	}
 	// three requests back to back, immediately
-	req := refctl.BuildRequest("GET", "/characteristics?id=1.2", "", nil)
+	req := refctl.BuildRequest("GET", "/characteristics?id=1.3", "", nil)
 	if err := c.SendMany(req, req, req); err != nil {
 		r.Inconclusive("handover send: " + err.Error())
 		return
